@@ -94,10 +94,10 @@ def run(repo, chk):
 
     ia = repo.func("interpret.Interactor.interact")
     g2 = CFG(ia.node, lambda s_: isinstance(s_, (ast.Raise, ast.Assert)))
-    tests = [n for n in g2.nodes if n.kind == "test" and norm(n.stmt.test).endswith("is ABSENT") and "not" not in norm(n.stmt.test)]
+    vname_ = ia.node.args.args[4].arg if len(ia.node.args.args) >= 6 else "value"
+    tests = [n for n in g2.nodes if n.kind == "test" and norm(n.stmt.test) == f"{vname_} is ABSENT"]
     logs = g2.find(lambda n: n.kind == "stmt" and ".log(" in n.text())
     from .shared import marker_free_definitions
-    vname_ = ia.node.args.args[4].arg if len(ia.node.args.args) >= 6 else "value"
     ok = bool(tests) and bool(logs) and all(not g2.path_exists(g2.entry, l, avoid=tests + marker_free_definitions(ia, g2, vname_)) for l in logs) and \
         all(isinstance(m.stmt, ast.Raise) for t in tests for m, lab in t.succ if lab == "t")
     chk.ob("R07.3", "interpret.Interactor.interact:only-bound-values-are-accumulated", ok, ia.where,
@@ -188,6 +188,16 @@ def run(repo, chk):
     call_aggregate_obligations(repo, chk, "R07.5", ["focus", "all_captures"], "whether a selector has a focus (fork per binding) and which names a complete record needs are decided over the whole call path")
     from .shared import fork_obligations
     fork_obligations(repo, chk, "R07.2", "each outermost call (and each binding of the focus) accumulates into its own record")
+    # ... and inside Probe.__init__ it reaches _make_rule as given, once per selector: None means "decide per selector" (by that selector's own focus)
+    pi = repo.func("probe.Probe.__init__")
+    mk = [n for n in ast.walk(pi.node) if isinstance(n, ast.Call) and norm(n.func) in ("self._make_rule",)]
+    rebound = [n for n in ast.walk(pi.node) if isinstance(n, ast.Name) and n.id == "probe_type" and isinstance(n.ctx, (ast.Store, ast.Del))]
+    ok = bool(mk) and all(len(c.args) == 2 and not c.keywords and is_name(c.args[1], "probe_type") for c in mk) and not rebound
+    chk.ob("R07.5", "probe.Probe.__init__:probe_type-reaches-every-rule-as-given", ok, pi.where,
+           "every selector's rule is made from the probe_type argument exactly as the caller gave it (None lets each selector decide by its own focus: a focus-free "
+           "selector next to a focused one still gets a Total accumulator)" + (f" -- probe_type is rebound at line {rebound[0].lineno}" if rebound else ""))
+    per_sel = all(isinstance(c.args[0], ast.Name) and any(isinstance(a, (ast.comprehension, ast.For)) and is_name(a.target, c.args[0].id) for a in ast.walk(pi.node)) for c in mk if c.args)
+    chk.ob("R07.5", "probe.Probe.__init__:one-rule-per-selector", bool(mk) and per_sel, pi.where, "_make_rule is applied to each selector of the probe in turn")
     # probe_type must reach Probe through every entry point: it decides Total vs Immediate
     for q_ in ("probe.probing", "probe.global_probe"):
         f_ = repo.func(q_)
